@@ -52,6 +52,8 @@ def intent_mismatch(p, d, path=''):
     """compare the scalar values `p` (and everything nested in it) was built with against the attributes of the same
     name of `d` (the decoded counterpart); returns a description of the first difference, or None"""
     args = getattr(p, '_verif_args', None) or {}
+    if type(p) is not type(d):
+        return '%s%s was built; after encode/decode a %s stands in its place' % (path, type(p).__name__, type(d).__name__)
     for n, v in args.items():
         if isinstance(v, bool) or not isinstance(v, (int, str, bytes)) or not hasattr(d, n):
             continue
@@ -62,6 +64,12 @@ def intent_mismatch(p, d, path=''):
             return '%s%s.%s was built with %r; after encode/decode it is %r' % (path, type(p).__name__, n, v, got)
     for attr in ('variable_items', 'user_data', 'ts_sub_items', 'data_value_items', 'abs_sub_item', 'ts_sub_item'):
         a, b = getattr(p, attr, None), getattr(d, attr, None)
+        given = args.get(attr)
+        if isinstance(given, (list, tuple)) and isinstance(b, (list, tuple)):
+            # the list the caller gave, in the caller's order, is the reference - not what the constructor made of it
+            if len(given) != len(b):
+                return '%s%s.%s was built with %d entries; after encode/decode it has %d' % (path, type(p).__name__, attr, len(given), len(b))
+            a = given
         if isinstance(a, (list, tuple)) and isinstance(b, (list, tuple)):
             for i, (x, y) in enumerate(zip(a, b)):
                 r = intent_mismatch(x, y, '%s%s[%d].' % (path, attr, i))
